@@ -31,7 +31,7 @@ COMPONENTS = {
     "stub_or_harness": ["history generator", "WriterModel reference model"],
 }
 PROBES = [
-    "same_string_in_both_modes", "argument_of_a_subclass_type", "generated_serializer_after_chunked", "generated_plain_struct_in_both_modes", "second_writer_interleaved", "refusal_on_nonempty_buffer", "refusal_right_after_mode_toggle", "perfect_fit_padded",
+    "same_string_in_both_modes", "argument_of_a_subclass_type", "generated_enum_width_overrides", "generated_serializer_after_chunked", "generated_plain_struct_in_both_modes", "second_writer_interleaved", "refusal_on_nonempty_buffer", "refusal_right_after_mode_toggle", "perfect_fit_padded",
     "y_diaeresis_sanitized", "y_diaeresis_unsanitized", "to_bytearray_is_copy", "refusal_far_beyond_limit",
     "refusal_string_one_too_long", "refusal_string_one_too_short",
 ]
@@ -144,6 +144,24 @@ def run_generated(plan, env, res, tr):
             return {"kind": "appended-bytes", "signature": f"C09|appended-bytes|generated-serializer|sanitize={mode}",
                     "detail": f"InnerPlain(a={a3!r}).serialize into a writer with sanitisation {'on' if mode else 'off'} wrote "
                               f"{got.hex()}, the declaration prescribes {expect.hex()}", "step": 0}
+    # one enum referred to with and without an underlying-type override: each field is written with ITS width
+    ks = [g["flag"] % 253, (g["flag"] * 251) % 64009, (g["flag"] * 64007 + 5) % (253 ** 3), (g["flag"] // 3) % 253]
+    wd = net.Widths(k1=net.Kind(ks[0]), k2=net.Kind(ks[1]), k3=net.Kind(ks[2]), k4=net.Kind(ks[3]))
+    w = EoWriter()
+    m = WriterModel()
+    expect = (m.image("add_char", [ks[0]]) + m.image("add_short", [ks[1]]) + m.image("add_three", [ks[2]])
+              + m.image("add_char", [ks[3]]))
+    try:
+        net.Widths.serialize(w, wd)
+        got = bytes(w.to_bytearray())
+    except Exception as e:  # noqa
+        got = f"raised {type(e).__name__}: {e}"
+    res.count("probe.generated_enum_width_overrides")
+    tr.ev("generated-widths", got.hex() if isinstance(got, bytes) else got)
+    if got != expect:
+        return {"kind": "appended-bytes", "signature": "C09|appended-bytes|generated-serializer|widths",
+                "detail": f"Widths(k1..k4={ks}) declared as Kind, Kind:short, Kind:three, Kind: serialize gave "
+                          f"{got.hex() if isinstance(got, bytes) else got}, the declared widths prescribe {expect.hex()}", "step": 0}
     return None
 
 
